@@ -48,6 +48,11 @@ __all__ = [
 logger = get_module_logger('distributions')
 
 
+def _log_comb(n: int, k: int) -> float:
+    """Return the natural logarithm of the binomial coefficient n over k."""
+    return math.lgamma(n + 1) - math.lgamma(k + 1) - math.lgamma(n - k + 1)
+
+
 def _next_float_open(stream: StreamInterface) -> float:
     """
     Return the next number of the stream that lies in the open interval 
@@ -334,8 +339,18 @@ class DistBinomial(DistDiscrete):
     def probability(self, observation: int) -> float:
         """Returns the probability of the observation for the distribution."""
         if isinstance(observation, int) and 0 <= observation <= self._n:
-            return (math.comb(self._n, observation) * self._p ** observation
-                    * (1.0 - self._p) ** (self._n - observation))
+            try:
+                return (math.comb(self._n, observation) 
+                        * self._p ** observation
+                        * (1.0 - self._p) ** (self._n - observation))
+            except OverflowError:
+                # the binomial coefficient does not fit in a float: evaluate
+                # in log space
+                if self._p == 0.0 or self._p == 1.0:
+                    return 0.0  # the observations 0 resp. n do not overflow
+                return math.exp(_log_comb(self._n, observation) 
+                        + observation * math.log(self._p) 
+                        + (self._n - observation) * math.log1p(-self._p))
         return 0.0;
 
     @property
@@ -910,8 +925,19 @@ class DistNegBinomial(DistDiscrete):
     def probability(self, observation: int) -> float:
         """Returns the probability of the observation for the distribution."""
         if isinstance(observation, int) and observation >= 0:
-            return (math.comb(self._s + observation - 1, observation) 
-                    * self._p ** self._s * (1.0 - self._p) ** (observation))
+            try:
+                return (math.comb(self._s + observation - 1, observation) 
+                        * self._p ** self._s 
+                        * (1.0 - self._p) ** (observation))
+            except OverflowError:
+                # the binomial coefficient does not fit in a float: evaluate
+                # in log space
+                if self._p == 1.0:
+                    return 0.0  # the observation 0 does not overflow
+                return math.exp(_log_comb(self._s + observation - 1, 
+                                          observation) 
+                        + self._s * math.log(self._p) 
+                        + observation * math.log1p(-self._p))
         return 0.0;
 
     @property
@@ -1556,8 +1582,15 @@ class DistPoisson(DistDiscrete):
     def probability(self, observation: int) -> float:
         """Returns the probability of the observation for the distribution."""
         if isinstance(observation, int) and observation >= 0:
-            return (math.exp(-self._rate) * (self._rate ** observation)
-                    / math.factorial(observation))
+            try:
+                return (math.exp(-self._rate) * (self._rate ** observation)
+                        / math.factorial(observation))
+            except OverflowError:
+                # the power or the factorial does not fit in a float: 
+                # evaluate in log space
+                return math.exp(-self._rate 
+                        + observation * math.log(self._rate) 
+                        - math.lgamma(observation + 1))
         return 0.0;
 
     @property
